@@ -311,6 +311,7 @@ class SolverSpy:
         self.orig = cvxpy.Problem.solve
         self.calls = []
         self.fail_cbc = False
+        self.cbc_calls = 0
         self.installed = False
 
     def install(self):
@@ -321,7 +322,10 @@ class SolverSpy:
             spy.calls.append(str(solver))
             ctxmod.CTX.count("M-SOLVER")
             if spy.fail_cbc and str(solver) == "CBC":
-                raise spy.cvxpy.SolverError("injected CBC failure (vframework fault injection)")
+                # True: every CBC call fails; an integer k > 1: every k-th CBC call fails (an intermittent fault)
+                spy.cbc_calls += 1
+                if spy.fail_cbc is True or spy.cbc_calls % int(spy.fail_cbc) == 0:
+                    raise spy.cvxpy.SolverError("injected CBC failure (vframework fault injection)")
             return spy.orig(problem, *args, **kwargs)
         self.cvxpy.Problem.solve = solve
         self.installed = True
